@@ -900,7 +900,7 @@ class Context:
             for ch in s:
                 if ch.isdigit():
                     digit = ord(ch) - ord("0")
-                elif ch.isalpha():
+                elif ch.isascii() and ch.isalpha():
                     digit = ord(ch.lower()) - ord("a") + 10
                 else:
                     break
@@ -1251,7 +1251,7 @@ class Context:
         for ch in s:
             if ch.isdigit():
                 digit = ord(ch) - ord("0")
-            elif ch.isalpha():
+            elif ch.isascii() and ch.isalpha():
                 digit = ord(ch.lower()) - ord("a") + 10
             else:
                 break
